@@ -8,7 +8,7 @@ def groups(rng, tier):
         return pc.oracle_rt(case, out)
     wire = pc.gen_wire_cases(rng, n // 4)
     def wire_oracle(case, out):
-        if out.startswith("PANIC") or out.startswith("CRASH") or "ORACLE-FAIL" in out:
+        if out.startswith("PANIC") or out.startswith("CRASH") or out.startswith("HANG") or "ORACLE-FAIL" in out:
             return "varint/key codec: " + out[:200]
         t = case.split()
         o = pc.strip_tail(out).split()
